@@ -80,7 +80,6 @@ Definition C15_known (c : C15_case) : N :=
       else if known_plus (c_pub_part cfg) (c_sub_part cfg) then 3%N
       else if known_newline (c_pub_part cfg) (c_sub_part cfg) then 6%N
       else 0%N
-    else if known_liveliness (c_off cfg) (c_req cfg) then 1%N
-    else if known_presentation (c_off cfg) (c_req cfg) then 2%N
-    else 0%N
+    else 0%N   (* classes 1 (liveliness) and 2 (presentation) were fixed by f03d4da / 908a0e8;
+                  the numbers are not reused *)
   else 0%N.
